@@ -99,6 +99,14 @@ func registerModels(e *Engine) {
 	}
 	e.models["slices.IndexFunc"] = indexFunc(false)
 	e.models["slices.ContainsFunc"] = indexFunc(true)
+	// gchan.ReqResp(ctx, log, reqChan, reqValue, respChan, what): SendC of the request, then a receive of the response
+	// (an arbitrary value of the response type; ok=false on cancellation).
+	e.models[e.modPath+"/internal/gchan.ReqResp"] = func(a *Act, st *State, args []Val, resT types.Type, pos token.Pos) Val {
+		if a.curCall != nil && len(a.curCall.Args) >= 4 && len(args) >= 4 {
+			a.chanSend(st, args[2], args[3], a.curCall.Args[2], pos)
+		}
+		return a.freshVal("reqresp", resT)
+	}
 	e.models[e.modPath+"/internal/gchan.SendC"] = sendC
 	e.models[e.modPath+"/internal/gchan.SendCLogBlocked"] = sendC
 	e.models["sync.RWMutex.Lock"] = lock("2", true)
